@@ -94,7 +94,10 @@ func ruleC07_2(c *Ctx) {
 		})
 		isOriginRet := func(in ssa.Instruction) bool {
 			r, ok := in.(*ssa.Return)
-			return ok && len(r.Results) == 2 && !isNilConst(r.Results[0])
+			if !ok || len(r.Results) != 2 || isNilConst(r.Results[0]) || c.An.isRepoCallResult(r.Results[0]) {
+				return false // error returns and delegated returns (the synthesised 504) are not origin answers
+			}
+			return c.An.ResponseKinds(r.Results[0])["upstream"]
 		}
 		r := c.An.MustPass(pr, isOriginRet, func(in ssa.Instruction) bool { return c.An.CallsRole(in, "invalidate") })
 		desc := "on the bypass path, an unsafe method with a 2xx/3xx answer passes the invalidation call before returning"
